@@ -151,7 +151,7 @@ pub fn run_c12(cfg: &Cfg) -> Report {
             cx.violation("empty SLIT is malformed".into(), J::Null);
         }
     }));
-    let nr = cfg.scaled(if thorough { 200_000 } else { 30_000 });
+    let nr = cfg.scaled(if thorough { 2_000_000 } else { 30_000 });
     rep.merge(par_cases(cfg, "slit.random", nr, |cx| {
         let mut r = cx.rng.clone();
         let n = 1 + r.usize_below(if cx.idx % 20 == 0 { 64 } else { 12 });
@@ -216,7 +216,7 @@ pub fn run_c12(cfg: &Cfg) -> Report {
     }
     let _ = shapes_done;
     rep.exhaustive("C12 HMAT: all shapes 1..5 x 1..5 with all assignment sequences of length <= 2 over 3 values");
-    let nh = cfg.scaled(if thorough { 200_000 } else { 30_000 });
+    let nh = cfg.scaled(if thorough { 2_000_000 } else { 30_000 });
     rep.merge(par_cases(cfg, "hmat.random", nh, |cx| {
         let mut r = cx.rng.clone();
         let (ni, nt) = match r.below(6) {
@@ -470,7 +470,7 @@ pub fn run_c13(cfg: &Cfg) -> Report {
             }
         }
     }));
-    let nr = cfg.scaled(if thorough { 300_000 } else { 60_000 });
+    let nr = cfg.scaled(if thorough { 2_000_000 } else { 60_000 });
     rep.merge(par_cases(cfg, "sdt.random", nr, |cx| {
         let mut r = cx.rng.clone();
         let init: u32 = match r.below(8) {
@@ -611,7 +611,7 @@ pub fn run_c17(cfg: &Cfg) -> Report {
             cx.sample(|| obj(vec![("state", 200u64.into()), ("op", "add".into()), ("byte", 100u64.into()), ("raw_value_expected", 44u64.into())]));
         }
     }));
-    let nr = cfg.scaled(if thorough { 100_000 } else { 20_000 });
+    let nr = cfg.scaled(if thorough { 1_000_000 } else { 20_000 });
     rep.merge(par_cases(cfg, "cksum.random", nr, |cx| {
         let mut r = cx.rng.clone();
         let mut c = Checksum::default();
